@@ -31,8 +31,16 @@ CHECKS.update({
     ),
     "C03": bounded("Executable postcondition of analyze_dir (result == multiset union of the per-file results over eligible files at any depth, no empty lists) on every directory-tree shape with <= 5 (quick) / 7 (thorough) entries and depth <= 3, every files/sub-directory listing interleaving observed through fs::read_dir, all three categories.", "the file system (fs::read_dir, PathBuf), HashMap iteration or recursion through directories", "§9 C03"),
     "C16": bounded("Executable contract of the file filter inside analyze_dir: result == result with ineligible files removed, no ineligible file (any valid-Unicode name, any bytes) is read or makes the run panic, every eligible name is analysed; corner-case name lists x content kinds x positions in the tree.", "the file system or str::to_lowercase/ends_with on OS strings", "§9 C16"),
-    "C11": bounded("Executable postconditions of generate_*_report / generate_report: reading the '- file:line' entries back reproduces the findings; each list is preceded by its own pattern's section; a section appears iff the pattern has a finding. Every single pattern x 21 file/line shapes exhaustively + seeded random maps.", "String concatenation (Verus internal error on String + &str), by-value iteration over HashMap, integer to_string", "§9 C11-C13"),
-    "C12": bounded("Executable postconditions on totals and headings; ALL 16 subsets of the four vulnerability patterns x all 21 file/line shapes per pattern enumerated completely (234,256 maps) + all 64 category-state combinations of the whole report + seeded random maps.", "String concatenation, by-value iteration over HashMap, integer to_string", "§9 C11-C13"),
+    "C11": dict(level="other",
+        text="Verus (unit sections): the three pattern -> report-section tables (get_optimization_report_section, get_vulnerability_report_section, get_qa_report_section) are PROVED to return, for every pattern, the text of the section module documented for that pattern. BOUNDED for the rendering itself: executable postconditions of generate_*_report / generate_report: reading the '- file:line' entries back reproduces the findings; each list is preceded by its own pattern's section; a section appears iff the pattern has a finding. Every single pattern x 21 file/line shapes exhaustively + seeded random maps.",
+        design="§9 C11-C13",
+        note="Trusted: Verus/Z3, vstd; section modules are external_body stubs. BOUNDED, never counted as proved: generate_*_report / generate_report (String concatenation -- Verus internal error on String + &str --, closures passed to sort_by_key / any, by-value iteration over HashMap and BTreeSet, integer to_string).",
+        technique="contract-based deductive verification (Verus) of the section tables; bounded executable-contract (read-back) check of the rendering functions on the real code"),
+    "C12": dict(level="other",
+        text="Verus (unit sections): get_vulnerability_report_section is PROVED to return for every vulnerability pattern the severity named in the property (selfdestruct high, divide-before-multiply medium, ERC20 and pragma low) together with that pattern's own section. BOUNDED for the rest: executable postconditions on totals and headings; ALL 16 subsets of the four vulnerability patterns x all 21 file/line shapes per pattern enumerated completely (234,256 maps) + all 64 category-state combinations of the whole report + seeded random maps.",
+        design="§9 C11-C13",
+        note="Trusted: Verus/Z3, vstd; section modules are external_body stubs. BOUNDED, never counted as proved: the counting and heading logic of generate_vulnerability_report / generate_optimization_report / generate_report (String concatenation, by-value iteration over HashMap, integer to_string).",
+        technique="contract-based deductive verification (Verus) of the severity table; bounded executable-contract check (exhaustive over the stated finite space) of totals and headings on the real code"),
     "C13": bounded("Relational check: the same findings set rendered from fresh HashMap instances (different hash seeds), permuted insertion orders of patterns and of (file, lines) vectors, and child processes must give byte-identical text equal to the canonical rendering.", "HashMap iteration order / per-process hash seeds", "§9 C11-C13"),
     "C14": dict(level="other",
         text="Verus (unit dispatch): the default lists get_all_optimizations / get_all_vulnerabilities / get_all_qa are PROVED to contain every variant of their enum (without a configuration file all patterns run), and analyze_for_* are PROVED to hand each pattern to the detector documented for it (variant -> detector table written from the documentation; the detector must be defined in the module file named after the pattern). BOUNDED for the rest: executable contract of str_to_* over every documented name (scraped from docs/, README.md, Solstat.toml on each run) x casings, junk names rejected; precedence --path > toml path > ./contracts and exact pattern selection observed through hook H1 and the report of the real binary; unknown name => non-zero exit and no report.",
